@@ -7,18 +7,21 @@ from .ir import E, walk_stmts, walk_expr, all_exprs, stmt_exprs, show
 from .paths import path_of
 
 META = {
-    'explanation': 'Abstract interpretation of the cursor offset in the for*StringChainable parsers (which offsets are dereferenced, '
-                   'how many digits feed which component, which offsets are skipped) and token extraction from the printTo bodies '
-                   '(literal / zero-padded 2-digit field / plain year), composed through nested printTo / chainable calls; the two '
-                   'sequences must agree field by field and position by position, the literals must be the ISO separators, the '
-                   'largest dereferenced offset must lie below the length tested by the wrapper.',
-    'decided': 'print/parse shape agreement for LocalDate(date part), LocalTime, LocalDateTime, TimeOffset, OffsetDateTime, '
-               'ZonedDateTime (brackets); ISO separators - - T : : and sign : ; every dereferenced offset is below the guarded '
-               'length and the length constants compose (19 = 10+1+8, 25 = 19+6); the printed sign is chosen by the sign of the '
-               'minutes and both components are negated, the parser applies the sign to both; error values print their placeholder; '
-               'no parser detours through the 32-bit epoch-seconds count (call-graph reachability) and no chainable parser rejects on '
+    'explanation': 'E-SEQ (typed): printTo and the for*String / for*StringChainable parsers of LocalDate, LocalTime, LocalDateTime, '
+                   'TimeOffset, OffsetDateTime and ZonedDateTime are interpreted through their real bodies; Print is abstracted to a '
+                   'recorder of what is printed (printPad2To, the DateStrings tables and the zone name included), a C string to an '
+                   'object that records which positions are read, strlen to its length. On sampled field values (corner dates of '
+                   'the supported range, every hour/minute class, every offset of +-99:59 for TimeOffset): the printed text is '
+                   'compared with the ISO-8601 form computed by the checker, parsed back and compared field by field; the highest '
+                   'position read is compared with the length the wrapper tests; strings one character short must give the error '
+                   'value; error values must print their placeholder. Plus call-graph reachability (no detour through epoch '
+                   'seconds) and an E-PATH rule (no parser rejects on a field value).',
+    'decided': 'on the sampled values: printed text is the ISO-8601 form, parses back to equal fields, no position at or beyond the '
+               'tested length is read, the length constants compose (19 = 10+1+8, 25 = 19+6), short strings give error values, '
+               'error values print their placeholder; every TimeOffset of +-99:59 prints and parses back with its sign; '
+               'no parser detours through the 32-bit epoch-seconds count and no chainable parser rejects on '
                'the value of a parsed numeric field, so every value a printer emits is read back',
-    'not_decided': 'value round trip over all dates/offsets (digit arithmetic); formatting of values outside +-99:59',
+    'not_decided': 'the round trip for every date of the range (sampled, not swept); formatting of values outside +-99:59',
     'assumptions': ['clang 14 parser', 'ace_common::printPad2To prints exactly two characters for values 0..99'],
 }
 
